@@ -13,7 +13,7 @@ if [ $clean -eq 0 ] && [ $patched -ne 0 ] && echo "$tests" | grep -q "86 passed"
   mkdir -p $DST && cp -r $SRC/* $DST/
   # run my check against the change
   git -C /repo apply $SRC/patch.diff
-  out=$(cd /verif && ./check $PID 2>&1); code=$?
+  out=$(cd /verif && VERIF_EVIDENCE_DIR=$(mktemp -d /dev/shm/seed_ev.XXXX) ./check $PID 2>&1); code=$?
   git -C /repo checkout -- .
   caught=$(echo "$out" | grep -E "^VIOLATION" | sed -E 's/.*obligation=([^ ]+).*/\1/' | head -5 | tr '\n' ' ')
   python3 - "$DST/meta.json" "$code" "$caught" "$tests" <<'PY'
